@@ -11,9 +11,11 @@ import (
 	"reflect"
 	"sort"
 	"sync"
+	"sync/atomic"
 
 	"github.com/youzan/ZanRedisDB/cluster"
 	"github.com/youzan/ZanRedisDB/cluster/pdnode_coord"
+	"github.com/youzan/ZanRedisDB/common"
 
 	"verif/harness/vc"
 )
@@ -357,12 +359,14 @@ func (r *runner) runOne(in *Input, chain []Input) [][]string {
 }
 
 func runC17(c *vc.Ctx) error {
-	// the placement code logs through the cluster logger: discard
-	cluster.SetLogger(0, nil)
+	// the placement code logs through the cluster logger: only warnings are formatted, and counted
+	wc := &warnCounter{}
+	cluster.SetLogger(common.LOG_WARN, wc)
 	r := &runner{c: c, ct: &counters{m: map[string]int64{}}}
 	c.Ev.Rule = "inputs of getRebalancedNamespacePartitions: (a) even split: every (nodes 1..40, dcs 1..4 with dcs|nodes, replica 1..5, both balance versions) " +
 		"x partition counts (thorough: all 1..64; quick: 8 per combination: a node count multiple, 64 and six seeded) x namespace names (different ring offsets); " +
-		"(b) uneven dc splits sampled from the seed; (c) v2 chains: fresh layout, then up to 8 steps of remove/add/replace random nodes, each result fed back as oldPartitionNodes. " +
+		"(b) uneven dc splits sampled from the seed; (c) v2 chains: fresh layout, then up to 8 steps of remove/add/replace random nodes, each result fed back as oldPartitionNodes; " +
+		"(d) directed histories (with per-seed renamings) and chains on small clusters with uneven data centres (several nodes or a whole data centre lost in one step, a lost node returning, add-then-lose) that reach v2's non-converging balance branch (counted from the driver's 'balance moved too much times' warning). " +
 		"Each input is called 3 times with the node map rebuilt in different insertion orders. " +
 		"An input is non-trivial when the driver returned a layout; distinct = distinct (nodes, dcs, partitions, replica, version)."
 	c.Ev.Assume("only old layouts that are themselves results of the driver (chains) are fed back to v2; ISR lists longer/shorter than replica (mid-migration metadata) are exercised by C18, not here")
@@ -485,6 +489,16 @@ func runC17(c *vc.Ctx) error {
 	c.ParallelFor(nChains, func(i int) {
 		r.runChain(i)
 	})
+
+	// (d) directed histories and small-cluster chains that reach the non-converging balance branch of v2
+	r.runDirected()
+	nSmall := c.Pick(24000, 150000)
+	c.ParallelFor(nSmall, func(i int) {
+		r.runSmallChain(i)
+	})
+	// every input is evaluated by 3 calls; each call that gave up balancing logged one warning
+	c.Ev.Set("v2_calls_balance_not_converging", atomic.LoadInt64(&wc.nonConverging))
+	c.Ev.Set("other_driver_warnings", atomic.LoadInt64(&wc.otherWarnings))
 
 	c.Ev.Set("dc_configurations", len(dcConfigs))
 	r.ct.mu.Lock()
